@@ -255,6 +255,7 @@ func genExts(r *Rng, max int, allowKeyDerived bool) []ExtSpec {
 
 // ForestOpts drives genForest.
 type ForestOpts struct {
+	Wide     int // >0: the first root gets this many extra direct children (fan-out beyond 64)
 	MaxEnts  int
 	MaxDepth int
 	Mix      KeyMix
@@ -351,6 +352,19 @@ func genForest(r *Rng, o ForestOpts) *Forest {
 			e.Manip = &ManipSpec{Version: ip(r.Intn(4))}
 		}
 		f.Ents = append(f.Ents, e)
+	}
+	if o.Wide > 0 && len(f.Ents) > 0 {
+		// fan-out beyond any pre-allocated capacity in the code under test (64 subscribers per issuer)
+		root := f.Ents[0]
+		for i := 0; i < o.Wide; i++ {
+			id := fmt.Sprintf("w%03d", i)
+			e := &EntitySpec{ID: id, Name: id, Ext: "yaml", Issuer: root.EffAlias(), Subject: []RDN{{"CN", "Wide " + id}}}
+			e.SigAlg = genSigAlg(r, keyFamily(root.KeyAlg), e.KeyAlg)
+			if r.Chance(1, 10) {
+				e.Exts = []ExtSpec{{Kind: "authorityKeyIdentifier", Content: rawJSON(map[string]any{"id": "hash"})}}
+			}
+			f.Ents = append(f.Ents, e)
+		}
 	}
 	return f
 }
